@@ -32,17 +32,20 @@ CHECKS = {
         floors={"fallback-used": ("TestResolve", 0.2)},
     ),
     "C12": dict(
-        pkg="./props/c12", level="exploration",
+        pkg="./props/c12", bins=["./cmd/simcore"], level="exploration",
         rule=("rapid-generated sets of 1-5 control commands (1-6 targets each, response timeouts 150-220 ms) on one command queue "
               "(production shape) or on 2-4 queues sharing one servent (stress: commands in flight at the same time), each target with a "
               "drawn behaviour (reply, error reply, send failure, silence, duplicate, late reply after the timeout, reply with an unknown "
               "command id, reply with the id of another command, reply from a foreign sender) and a drawn arrival slot; every reply carries a "
               "unique token. Oracle: exactly one completion per command within its timeout, one entry per target, own token or an error. "
-              "Non-trivial: a multi-target command with >=1 abnormal target, or >=2 commands in flight. Distinct = distinct case digests."),
+              "Non-trivial: a multi-target command with >=1 abnormal target, or >=2 commands in flight. Distinct = distinct case digests. "
+              "Whole core (TestWholeCoreAttribution): during START_ACTIVITY / RESET of an environment with 1-4 tasks a foreign executor (other agent and "
+              "executor id) sends a success reply naming the pending command and one task, 150 ms before that task's own answer (error or success): "
+              "the foreign reply neither completes nor alters the command."),
         assumptions=["replies are delivered in their own goroutine, as core/task/scheduler.go does",
                      "real-time timeouts: a verdict is reported only if a second execution of the same case reproduces it"],
-        quick=[R("^TestCommandsFixed$", 1, 1, 120), R("^TestCommands$", 150, 14, 400)],
-        thorough=[R("^TestCommandsFixed$", 1, 1, 120), R("^TestCommands$", 2500, 16, 3000)],
+        quick=[R("^TestCommandsFixed$", 1, 1, 120), R("^TestCommands$", 150, 14, 400), R("^TestWholeCoreAttributionFixed$", 1, 1, 300), R("^TestWholeCoreAttribution$", 8, 1, 400, shrinktime="30s")],
+        thorough=[R("^TestCommandsFixed$", 1, 1, 120), R("^TestCommands$", 2500, 16, 3000), R("^TestWholeCoreAttributionFixed$", 1, 1, 300), R("^TestWholeCoreAttribution$", 150, 2, 3000, shrinktime="60s")],
         floors={"concurrent-commands": ("TestCommands", 0.15), "multi-target": ("TestCommands", 0.5)},
     ),
     "C19": dict(
